@@ -224,8 +224,19 @@ func cmdCheck(args []string) int {
 			inconcl = appendUniq(inconcl, rr.Root.Key()+": vacuous (no feasible completed path)")
 		}
 		seen := map[string]bool{}
+		nsched := 0
 		for _, f := range rr.Failures {
 			k := f.Kind + "|" + f.Msg + "|" + siteNoFn(f.Site)
+			if hasSched(f.Decs) && f.Kind != "race" {
+				// interleavings differ in whether they can be staged natively: keep up to 10 per root
+				k += "|" + traceSig(f.STrace)
+				if !seen[k] {
+					nsched++
+				}
+				if nsched > 6 {
+					continue
+				}
+			}
 			if seen[k] {
 				continue
 			}
@@ -270,6 +281,10 @@ func cmdCheck(args []string) int {
 		tp := &Tape{ID: id, Harness: c.rr.Root.Harness, Params: c.rr.Root.Params, Nondet: c.f.Nondet, Chooses: c.f.Chooses, Expect: "fail", failure: c.f, Sched: hasSched(c.f.Decs)}
 		if c.f.LibPrio {
 			tp.Env = c.f.Env
+		} else if tp.Sched && c.f.Kind != "race" && len(c.f.STrace) > 0 && len(c.f.STrace) < 4000 {
+			// the engine's own schedule, staged natively at the library's visible operations
+			// (instrumented copy of the library sources, see native.go)
+			tp.STrace = c.f.STrace
 		}
 		tp.Race = c.f.Kind == "race"
 		tapes = append(tapes, tp)
@@ -395,6 +410,8 @@ func cmdCheck(args []string) int {
 		tp := &Tape{ID: id, Harness: c.rr.Root.Harness, Params: c.rr.Root.Params, Nondet: c.f.Nondet, Chooses: c.f.Chooses, Expect: "fail", Sched: hasSched(c.f.Decs), Race: c.f.Kind == "race"}
 		if c.f.LibPrio {
 			tp.Env = c.f.Env
+		} else if tp.Sched && c.f.Kind != "race" && len(c.f.STrace) > 0 && len(c.f.STrace) < 4000 {
+			tp.STrace = c.f.STrace
 		}
 		data, _ := json.MarshalIndent(map[string]interface{}{"property": *prop, "tape": tp, "failure": map[string]string{"kind": c.f.Kind, "msg": c.f.Msg, "site": c.f.Site}, "decisions": decString(c.f.Decs), "env_events": c.f.Env}, "", " ")
 		os.WriteFile(rp, data, 0o644)
@@ -513,6 +530,14 @@ func cmdCheck(args []string) int {
 		return 1
 	}
 	return 0
+}
+
+func traceSig(tr []TraceEv) string {
+	var sb strings.Builder
+	for _, e := range tr {
+		fmt.Fprintf(&sb, "%s/%s/%d;", e.Role, e.Site, e.Code)
+	}
+	return sb.String()
 }
 
 func siteNoFn(s string) string {
